@@ -452,7 +452,7 @@ let () =
         let fmt = if rand_int r 4 = 0 then 8 else 4 in
         let asz = if rand_int r 3 = 0 then 4 else 8 in
         let flags = match rand_int r 4 with 0 -> 1023 | 1 -> rand_int r 1024 | _ -> rand_int r 1024 lor 4 in
-        let cfi = match rand_int r 40 with 0 -> 1 | 2 | 3 | 4 | 5 | 6 | 7 | 8 | 9 -> 2 | 10 -> 3 | 11 | 12 | 13 | 14 | 15 | 16 -> 4 | _ -> 0 in
+        let cfi = (let x = rand_int r 100 in if x = 0 then 1 else if x = 1 then 3 else if x < 22 then 2 else if x < 37 then 4 else 0) in
         write_case emit be ver fmt asz (seed * 1000003 + i) (1 + rand_int r 3) (rand_int r 9) flags cfi (1 + rand_int r 3) (rand_int r 6)
       done);
   register "c18.corpus" ~doc:"compiler-built corpus sections read through RelocateReader with the identity relocation vs plainly; then a third of the logged address sites perturbed (implicit/explicit addends) and RelocateReader on raw bytes vs plain reader on applied bytes"
